@@ -13,20 +13,22 @@ import (
 
 // View is what one endpoint reports about a connection, in a library-neutral form.
 type View struct {
-	HandshakeErr error
-	Complete     bool
-	Version      uint16
-	Suite        uint16
-	DidResume    bool
-	PeerCerts    [][]byte
-	EKM          []byte
-	EKMErr       error
-	Read         []byte // application bytes received
-	ReadErr      error  // error that ended reading (io.EOF for a clean close)
-	WriteErrs    []error
-	Panic        interface{}
-	Stack        string
-	Done         bool
+	HandshakeErr  error
+	Complete      bool
+	Version       uint16
+	Suite         uint16
+	DidResume     bool
+	PeerCerts     [][]byte
+	EKM           []byte
+	EKMErr        error
+	Read          []byte // application bytes received
+	ReadErr       error  // error that ended reading (io.EOF for a clean close)
+	ReadAfterErr  []byte // bytes delivered by Read calls made AFTER the first error (must stay empty)
+	ReadRecovered bool   // a Read call after the first error returned a nil error
+	WriteErrs     []error
+	Panic         interface{}
+	Stack         string
+	Done          bool
 }
 
 // App describes the data phase of one endpoint.
@@ -62,6 +64,14 @@ func runApp(c conn, v *View, a App) {
 		v.Read = append(v.Read, buf[:n]...)
 		if err != nil {
 			v.ReadErr = err
+			// the error must be sticky: two more Read calls, which must not deliver anything
+			for k := 0; k < 2; k++ {
+				n2, err2 := c.Read(buf)
+				v.ReadAfterErr = append(v.ReadAfterErr, buf[:n2]...)
+				if err2 == nil {
+					v.ReadRecovered = true
+				}
+			}
 			break
 		}
 		if n == 0 && len(v.Read) > 1<<24 {
@@ -144,12 +154,12 @@ func StdEnd(cfg *stdtls.Config, client bool, a App, v *View) func(e *wire.End) e
 
 // Outcome of one session.
 type Outcome struct {
-	C, S       View
-	Horizon    bool
-	Stuck      []string
-	Records    []wire.Record
-	ClientEnd  *wire.End
-	ServerEnd  *wire.End
+	C, S      View
+	Horizon   bool
+	Stuck     []string
+	Records   []wire.Record
+	ClientEnd *wire.End
+	ServerEnd *wire.End
 }
 
 // capture wraps a policy and records every record seen.
